@@ -2623,9 +2623,14 @@ func (ex *explorer) simple(st *State, in ssa.Instruction) {
 			ex.emit(st, Step{Kind: KRecv, Instr: in, A: []*Term{x}, R: r, CommaOk: in.CommaOk})
 			f.env[in] = r
 		case token.NOT:
-			if x.IsConst() && (x.Aux == "true" || x.Aux == "false") {
+			switch {
+			case x.IsConst() && (x.Aux == "true" || x.Aux == "false"):
 				f.env[in] = boolT(x.Aux == "false")
-			} else {
+			case x.Op == "un" && x.Aux == "!" && len(x.Args) == 1:
+				f.env[in] = x.Args[0] // double negation
+			case x.Op == "bin" && x.Aux == "!=" && len(x.Args) == 2:
+				f.env[in] = mkBin("==", x.Args[0], x.Args[1]) // !(a != b) is a == b
+			default:
 				f.env[in] = &Term{Op: "un", Aux: "!", Args: []*Term{x}}
 			}
 		default:
